@@ -297,6 +297,29 @@ fn position_in_range(start: (u32, u32), end: (u32, u32), target: LineChar) -> bo
     true
 }
 
+/// Verification hook: the offset inside the single iso literal `content[start..end]` that an
+/// LSP position designates, for out-of-tree proof harnesses.
+#[cfg(kani)]
+pub fn verif_find_under_cursor(
+    content: &str,
+    start: usize,
+    end: usize,
+    target: LineChar,
+) -> Option<u32> {
+    let extraction = IsoLiteralExtraction {
+        const_export_name: None,
+        iso_literal_text: content[start..end].to_string(),
+        iso_literal_start_index: start,
+        has_associated_js_function: false,
+        iso_function_called_with_paren: true,
+    };
+    let found = find_iso_literal_extraction_under_cursor(target, content, [&extraction]);
+    let offset = found.as_ref().map(|(_, offset)| *offset);
+    std::mem::forget(found);
+    std::mem::forget(extraction);
+    offset
+}
+
 /// Verification hook: exposes the private conversion to out-of-tree proof harnesses.
 #[cfg(kani)]
 pub fn verif_get_index_of_line_char(source: &str, line_char: LineChar) -> u32 {
